@@ -366,7 +366,10 @@ def inv_cap(ctx):
     K = 16
     if cap is None or cap < K + 2:
         out.append(f"move list capacity {cap} < {K} accepted pieces + 2 en-passant entries")
-    pushes = [(k, bi) for k, b in P.fns.items() if b["crate"] == "chess_movegen" and "::promoted" not in k for bi, t in P.calls(k) if "push_unchecked" in t["f"].get("fn", "")]
+    wr = k2.push_wrappers(P)
+    # a private helper that pushes exactly one entry per call stands for a push at each of its call sites
+    pushes = [(k, bi) for k, b in P.fns.items() if b["crate"] == "chess_movegen" and "::promoted" not in k and k not in wr for bi, t in P.calls(k)
+              if "push_unchecked" in t["f"].get("fn", "") or T.strip_generics(t["f"].get("fn", "")) in wr]
     if len(pushes) != 6:
         out.append(f"{len(pushes)} unchecked push sites (6 were audited: 2 generic, 3 pawn, 1 king)")
     # one push per iteration of a loop over own pieces / king outside loops / en passant over <= 2 candidates: C01.R2, R3, R5 domains
